@@ -191,16 +191,27 @@ func main() {
 		b.detProg = &detProg{name: "ending:" + b.kind, class: "ending", src: b.src, path: b.path}
 		progs = append(progs, b.detProg)
 	}
-	incPath := writeProg("state", "c20_inc", incFileSource)
-	mods := stateModules(incPath)
+	var incPaths []string
+	for j := 1; j <= 4; j++ {
+		incPaths = append(incPaths, writeProg("state", "c20_inc"+sfx(j), incFileSource(j)))
+	}
+	mods := stateModules(incPaths)
 	rs := e.Rand("state")
 	var statePs []*stateProg
 	var stateDet []*detProg
 	for i := 0; i < nState; i++ {
 		id := fmt.Sprintf("S%03d", i)
-		sp := buildStateProgram(mods, id, randomTouchSet(rs, mods), cal.modOK)
+		sp := buildStateProgram(mods, id, randomTouchSet(rs, mods, cal.modMulti), cal.modOK)
 		statePs = append(statePs, sp)
 		dp := &detProg{name: "state" + id, class: "state", src: sp.src, labels: true, path: writeProg("state", "state"+id, sp.src)}
+		stateDet = append(stateDet, dp)
+		progs = append(progs, dp)
+	}
+	{
+		// the observer of the fixed battery: probes and posts, no touch
+		sp := buildStateProgram(mods, "OBS", map[string]touchSpec{}, cal.modOK)
+		statePs = append(statePs, sp)
+		dp := &detProg{name: "stateOBS", class: "state", src: sp.src, labels: true, path: writeProg("state", "stateOBS", sp.src)}
 		stateDet = append(stateDet, dp)
 		progs = append(progs, dp)
 	}
@@ -237,6 +248,7 @@ func main() {
 	e.Extra("order_outside_domain_by_sink", det.outsideBySink)
 	e.Extra("sinks_dropped_by_calibration", cal.droppedSinks)
 	e.Extra("state_modules_dropped_by_calibration", cal.droppedMods)
+	e.Extra("state_modules_touched_once_only_after_calibration", cal.simpleMods)
 	e.Extra("corpus", corpusNote)
 	e.Extra("pairs", ps.extra)
 	e.Extra("ending_pairs", endExtra)
